@@ -904,7 +904,8 @@ func c14Short(total *c14Acc, fam int, prefix, alphabet string, maxLen int) int64
 
 // the "characters" used for edits: the 12 of the design plus '.', a newline and
 // a non-ASCII decimal digit (U+0663)
-var c14EditChars = []string{"A", "B", "Z", "a", "z", "0", "1", "9", "-", "_", " ", "/", ".", "\n", "٣"}
+// the last three are capital letters outside ASCII (Latin-1, Cyrillic, fullwidth)
+var c14EditChars = []string{"A", "B", "Z", "a", "z", "0", "1", "9", "-", "_", " ", "/", ".", "\n", "٣", "É", "С", "Ａ"}
 
 func c14Edits(s string, chars []string) []string {
 	out := make([]string, 0, (2*len(s)+1)*len(chars)+len(s))
@@ -1016,6 +1017,10 @@ func C14Formats(tier string, o *runner.Outcome) {
 
 	var e1 []string
 	for _, b := range bases {
+		e1 = append(e1, c14Edits(b, c14EditChars)...)
+	}
+	// the bare abbreviations too (their validator is the only gate of AddCreditType)
+	for _, b := range c14Abbrevs {
 		e1 = append(e1, c14Edits(b, c14EditChars)...)
 	}
 	c14Par(total, len(e1), func(a *c14Acc, lo, hi int) {
